@@ -87,6 +87,16 @@ func (x *Exec) evalCall(st *State, e *ast.CallExpr) []Val {
 		if e.Ellipsis.IsValid() {
 			x.unsupported(e, "variadic call")
 		}
+		if ev := x.findCallEvent(key); ev != nil {
+			binds := map[string]Val{}
+			for i, v := range ev.Vars {
+				if i < len(args) {
+					binds[v] = args[i]
+				}
+			}
+			st.note("call " + shortKey(key))
+			x.runEvent(st, e, ev, binds)
+		}
 		return x.applyContract(st, e, key, spec.Clauses, names, args, sig.Results(), info.TypeOf(e))
 	}
 	// call through a function value
@@ -111,6 +121,22 @@ func (x *Exec) evalCall(st *State, e *ast.CallExpr) []Val {
 	}
 	x.unsupported(e, "call "+types.ExprString(e.Fun))
 	return []Val{{T: "0", S: "Int"}}
+}
+
+func shortKey(key string) string {
+	if i := strings.LastIndex(key, "/"); i >= 0 {
+		return key[i+1:]
+	}
+	return key
+}
+
+func (x *Exec) findCallEvent(key string) *EventSpec {
+	for _, ev := range x.sp.Events {
+		if ev.Kind == "call" && ev.Pkg == x.fn.pkgPath() && ev.Pattern == shortKey(key) {
+			return ev
+		}
+	}
+	return nil
 }
 
 func ifaceKey(t types.Type, method string) string {
